@@ -20,6 +20,7 @@ import (
 	"fmt"
 	"io"
 	"net/url"
+	"os"
 	"runtime"
 	"sort"
 	"strconv"
@@ -182,6 +183,10 @@ func renderPkt(p *rtp.Packet) string {
 	return fmt.Sprintf("pkt,%d,%d,%s", p.Channel, p.PayloadOffset, Hx(p.Data))
 }
 
+// the Request-URI net/url refused in the last call (the model's net/url table must hold it:
+// the driver only asks for a URI when the message around it is otherwise accepted)
+var lastBadURL string
+
 func errKind(err error) string {
 	if err == nil {
 		return "-"
@@ -192,7 +197,8 @@ func errKind(err error) string {
 	if err == io.ErrUnexpectedEOF {
 		return "ueof"
 	}
-	if _, ok := err.(*url.Error); ok {
+	if ue, ok := err.(*url.Error); ok {
+		lastBadURL = ue.URL
 		return "url-parse"
 	}
 	m := err.Error()
@@ -1474,6 +1480,7 @@ func runRound(c *Ctx, round int) {
 		var implEvents []string
 		var implErr string
 		var ro readOut
+		lastBadURL = ""
 		hung := watched(k.line, func() {
 			switch k.kind {
 			case "recv":
@@ -1507,6 +1514,23 @@ func runRound(c *Ctx, round int) {
 		if k.implOnly {
 			runtime.ReadMemStats(&ms)
 			alloc = ms.TotalAlloc - before
+		}
+		// the implementation stopped at a Request-URI net/url refuses, the model went on with a
+		// URI its table does not hold and failed later: tell it net/url's verdict and ask again
+		for pass := 0; pass < 12 && !k.implOnly && !hung && strings.HasSuffix(implText, "err=url-parse") && outs[i] != implText && lastBadURL != "" && !k.extraURL[lastBadURL]; pass++ {
+			if k.extraURL == nil {
+				k.extraURL = map[string]bool{}
+			}
+			k.extraURL[lastBadURL] = true
+			for p2 := 0; p2 < 12; p2++ {
+				k.line = caseLine(k, nil)
+				outs[i] = c.Drive([]string{k.line})[0]
+				if !strings.HasPrefix(outs[i], "need-url=") {
+					break
+				}
+				k.extraURL[string(Unhx(strings.TrimPrefix(outs[i], "need-url=")))] = true
+			}
+			c.Count("url-table-completed-from-net/url-error")
 		}
 		model := strings.Replace(outs[i], "err=panic", "panic", 1)
 		if strings.HasPrefix(implText, "events=") && strings.HasSuffix(implText, "err=panic") {
@@ -1689,6 +1713,9 @@ func lyingBody(k *rcase, implText string) bool {
 }
 
 func trunc(s string, n int) string {
+	if os.Getenv("VERIF_FULL") != "" { // debugging aid: findings carry the whole renderings
+		return s
+	}
 	if len(s) > n {
 		return s[:n] + "…"
 	}
